@@ -25,7 +25,7 @@ for pid in props:
 na = [dict(property_id=p, reason=T.NOT_APPLICABLE.get(p, "check not built yet in this round; planned per DESIGN.md section 6")) for p in props if p not in T.CLAIMED]
 m = dict(
     version=1,
-    setup_cmd="cd /verif/harness && cp -n /repo/Cargo.lock Cargo.lock; CARGO_NET_OFFLINE=true cargo build --release --offline && cd /verif/spec && for m in *.tla; do tla-sany $m > /dev/null || exit 1; done",
+    setup_cmd="cd /verif/harness && cp -n /repo/Cargo.lock Cargo.lock; CARGO_NET_OFFLINE=true cargo build --release --offline && CARGO_NET_OFFLINE=true CARGO_TARGET_DIR=/verif/harness/target-cli cargo build --release --offline -p cedar-policy-cli --manifest-path /repo/Cargo.toml && cd /verif/spec && for m in *.tla; do tla-sany $m > /dev/null || exit 1; done",
     hooks=T.HOOKS,
     engines=T.ENGINES,
     checks=checks,
